@@ -40,9 +40,13 @@ def run(res):
                                 for sw, expect in (('ImplicitMapsLinked', ('BackLinks', 'RootBackLinks')),
                                                    ('ClearAllLayers', ('LatestWins', 'ClearDetaches', 'PathEquivalence')),
                                                    ('SetItemPopsAllLayers', ('PathEquivalence', 'HandleXorMap', 'LatestWins')))])
+    join2 = rc.switch_runs(res, [('c11_asimpl_WalkLinksOnlyCreated',
+                                  rc.consts(maps=3, handles=2, depth=2, ops=SET_CLEAR, staging=True, WalkLinksOnlyCreated=False),
+                                  rc.INV_TREE, rc.PROP_TREE, ('BackLinks', 'RootBackLinks'))])
     cfgs = _configs(thorough)
     pre = rc.dumps_in_parallel(res, {n: co for n, (co, _d) in cfgs.items()}, rc.INV_TREE, rc.PROP_TREE)
     join()
+    join2()
     for name, ((c, ov), depth_all) in cfgs.items():
         rc.check_and_replay(res, name, c, ov, rc.INV_TREE, rc.PROP_TREE, own=FACETS_TREE, probe=True, depth_all=depth_all,
                             walks=3000 if thorough else 600, walk_len=25, pre=pre[name])
